@@ -100,7 +100,7 @@ theorem join3 (a b c : Bytes) : Lib.bytes_Join [a, b, c] [32] = a ++ [32] ++ b +
 
 /-- the premises of the corollaries are satisfiable: a one-route table forwards `a 1 2` to that route -/
 example :
-    let E : Env := ⟨fun b _ _ => (b.take 1, 0, 2, none), fun _ _ => none, fun _ => 0⟩
+    let E : Env := { (default : Env) with m20_ValidatePacket := fun b _ _ => (b.take 1, 0, 2, none), validate_Ordered := fun _ _ => none }
     let r : RouteI := { id := 7, Key := [], Match := fun _ => true, Dispatch := fun b => ([Ev.call "got" 7 [b]], ()), Shutdown := ([], none) }
     let t : Table := ⟨⟨⟨0⟩, ⟨0⟩, false, [], [], [], [r]⟩⟩
     (t.Dispatch E [97, 32, 49, 32, 50]).1 = [inc "table.numIn.Inc", Ev.call "got" 7 [[97, 32, 49, 32, 50]]] := by decide
